@@ -2,9 +2,31 @@
    ONLY statements; proofs are `exact` of lemmas in Proofs/ZidFacts.v.
    The tables Gen/Params.v (excluded characters) and Gen/LexRules.v (lexer
    rules of both grammars) are regenerated from /repo on every run, so these
-   theorems are re-checked against the current source. *)
+   theorems are re-checked against the current source.  Gen/PySrc.v holds the
+   CURRENT SOURCE of _get_next_id, is_short_date_spec and is_zid, translated on
+   every run into the PyLite embedding (Lex/PyLite.v): C07_source_successor_is_model
+   and C07_source_is_zid_accepts relate that source to the model the other theorems
+   are about, on all 135 252 suffixes. *)
 From Zorg Require Import Base.PyStr Base.Sexp Base.Res Base.Dates Gen.Params Gen.LexRules
-  Lex.Regex Model.Zid Proofs.ZidFacts.
+  Lex.Regex Model.Zid Proofs.ZidFacts Lex.PyLite Gen.PySrc Proofs.PySrcFacts.
+
+(* the source of _get_next_id, run by the PyLite interpreter, returns the model's successor for every valid
+   suffix and raises RuntimeError exactly where the model does *)
+Theorem C07_source_successor_is_model : forall s,
+  valid_suffix s = true ->
+  match next_id s with
+  | Ok t => py_next s = Ok (VStr t)
+  | Exn e => py_next s = Exn e
+  | _ => False
+  end.
+Proof. exact source_successor_is_model. Qed.
+
+(* the source of is_zid accepts date key + '#' + every valid suffix (two- and three-character ones) *)
+Theorem C07_source_is_zid_accepts : forall s,
+  valid_suffix s = true ->
+  py_is_zid (S "000101" ++ S "#" ++ s) = Ok (VBool true) /\ py_is_zid (S "991231" ++ S "#" ++ s) = Ok (VBool true).
+Proof. exact source_is_zid_accepts. Qed.
+
 Local Open Scope Z_scope.
 
 (* Full statement of the exhaustion clause, as the property words it:
@@ -103,6 +125,8 @@ Example C07_example :
 Proof. split; [vm_compute; reflexivity|]. split; [|vm_compute; reflexivity].
        split; [vm_compute; reflexivity|simpl; lia]. Qed.
 
+Print Assumptions C07_source_successor_is_model.
+Print Assumptions C07_source_is_zid_accepts.
 Print Assumptions C07_unique.
 Print Assumptions C07_unique_from.
 Print Assumptions C07_wf.
